@@ -223,7 +223,8 @@ def r03_4(ctx):
             ext = [e for e in p.events if e[0] == "call" and e[1].endswith("Extend>::extend")]
             if has:
                 rows.setdefault(has[0], set()).add((tuple(calls), len(ext)))
-        r.ob("end-chain:first-stage-only-ends", rows.get("None") == {(("end",), 0)}, f.loc(lp.line), "nothing pending -> stage.end(): %s" % rows.get("None"))
+        # (the flushed bytes may be appended to the - empty - accumulator: one extend, same bytes)
+        r.ob("end-chain:first-stage-only-ends", rows.get("None") in ({(("end",), 0)}, {(("end",), 1)}), f.loc(lp.line), "nothing pending -> stage.end(): %s" % rows.get("None"))
         r.ob("end-chain:pending-is-filtered-then-ended", rows.get("Some") == {(("filter", "end"), 1)}, f.loc(lp.line), "pending bytes -> stage.filter(pending) followed by stage.end(): %s" % rows.get("Some"))
         # do_filter threads the data through the chain in order
         g = F.method(FBA, "do_filter")
